@@ -785,7 +785,7 @@ type C14Params struct {
 	N        int       `json:"n"`        // RPCs in the history
 	Inflight int       `json:"inflight"` // concurrently
 	GenSeed  uint64    `json:"genseed"`
-	Outcomes []int     `json:"outcomes"` // weights: ok, error, cancel, deadline, early-return (server reset), failed open, context finished before the call, timeout already expired on arrival, a message write that fails once
+	Outcomes []int     `json:"outcomes"` // weights: ok, error, cancel, deadline, early-return (server reset), failed open, context finished before the call, timeout already expired on arrival, a message write that fails once, a half-close write that fails once
 	Side     SideOpts  `json:"side"`     // interceptors / stats handlers (family c20.outcomes)
 }
 
@@ -799,7 +799,7 @@ func genC14(g *rand.Rand, tier string) any {
 	}
 	p.Inflight = 1 + g.IntN(32)
 	p.GenSeed = g.Uint64()
-	p.Outcomes = []int{1 + g.IntN(4), g.IntN(3), g.IntN(4), g.IntN(3), g.IntN(3), g.IntN(3), g.IntN(3), g.IntN(2), g.IntN(3)}
+	p.Outcomes = []int{1 + g.IntN(4), g.IntN(3), g.IntN(4), g.IntN(3), g.IntN(3), g.IntN(3), g.IntN(3), g.IntN(2), g.IntN(3), g.IntN(3)}
 	return p
 }
 
@@ -821,6 +821,7 @@ func execC14(e *Env, pp any) {
 	// failed open: the transport write of chosen open envelopes fails once
 	failOpen := map[int]bool{}
 	failBody := map[int]bool{}   // calls whose next message write fails once (the connection stays usable)
+	failClose := map[int]bool{}  // calls whose half-close write fails once
 	wireCall := map[uint64]int{} // wire id -> call, learnt from the open envelope
 	cout.WriteFault = func(n int, r *Rpc) error {
 		if c := callOfEnvelope(r); c != 0 {
@@ -830,6 +831,13 @@ func execC14(e *Env, pp any) {
 			if c := callOfEnvelope(r); c != 0 && failOpen[c] {
 				delete(failOpen, c)
 				e.Note("fault.open.writeFail")
+				return ErrInjected
+			}
+		}
+		if r.GetTrailer() != nil && r.GetBody() == nil && r.GetReset_() == nil {
+			if c := wireCall[r.GetId()]; c != 0 && failClose[c] {
+				delete(failClose, c)
+				e.Note("fault.close.writeFail")
 				return ErrInjected
 			}
 		}
@@ -843,7 +851,7 @@ func execC14(e *Env, pp any) {
 		return nil
 	}
 	tot := 0
-	for len(p.Outcomes) < 9 {
+	for len(p.Outcomes) < 10 {
 		p.Outcomes = append(p.Outcomes, 0)
 	}
 	for _, w := range p.Outcomes {
@@ -962,6 +970,18 @@ func execC14(e *Env, pp any) {
 				}
 				failBody[id] = true
 				e.Note("outcome.failed-send")
+			}
+		case 9: // the half-close fails in the transport (the connection stays usable); like the generated stubs, the caller gives the call up on that error
+			if c.Kind != KUnary {
+				c.CSendN, c.HSendN = 1, 0
+				c.CProg = []Op{{K: 's'}, {K: 'c', N: 1}, {K: 'R'}}
+				c.HProg = []Op{{K: 'R'}}
+				if c.Kind != KBidi {
+					c.HSendN = 1
+					c.HProg = append(c.HProg, Op{K: 's'})
+				}
+				failClose[id] = true
+				e.Note("outcome.failed-close")
 			}
 		default:
 			e.Note("outcome.ok")
@@ -1164,7 +1184,7 @@ func init() {
 		if p.Side.CliStats+p.Side.SrvStats == 0 {
 			p.Side.CliStats, p.Side.SrvStats = 1, 1
 		}
-		p.Outcomes = []int{2, 1 + g.IntN(2), 1 + g.IntN(3), 1 + g.IntN(2), g.IntN(2), 1 + g.IntN(3), g.IntN(2), 1 + g.IntN(2), g.IntN(2)}
+		p.Outcomes = []int{2, 1 + g.IntN(2), 1 + g.IntN(3), 1 + g.IntN(2), g.IntN(2), 1 + g.IntN(3), g.IntN(2), 1 + g.IntN(2), g.IntN(2), g.IntN(2)}
 		return p
 	}, Exec: execC14, Faulty: true, FaultKinds: []string{"ctx.cancel", "ctx.deadline", "open.writeFail", "handler.abandon"}})
 }
